@@ -55,6 +55,7 @@ def items(tier):
     for ch in E.chunks(deg + specs, 12):
         its.append({"key": f"{ch[0][0]}..{ch[-1][0]}", "kind": "models", "specs": [[k, s] for k, s in ch],
                     "sample": {"family": "E3", "first_key": ch[0][0], "first_text": models.spec_text(ch[0][1]), "n": len(ch)}})
+    its += models.option_items(ID)
     # missing_values (sub-models obtained by splitting at a component): JAX sub-modules vs NumPy sub-modules vs the full model
     from checks import c13
     for ch in E.chunks(c13.rich_family(), 4):
@@ -118,6 +119,9 @@ def run_item(item):
             return c13.run_item(item)
         finally:
             c13.ID = saved
+    if item["kind"] == "options":
+        models.run_option_item(item, res, ID, ("jax",))
+        return res
     if item["kind"] == "pack":
         exprs = [L.from_json(e) for e in item["exprs"]]
         saved = c01.ID
